@@ -304,3 +304,341 @@ def _c20_direct(rec):
     line is removed or moved and the bare comment stays behind."""
     d = rec.get("detail") or {}
     return rec.get("kind") == "ignored_line_not_carried_over" and d.get("direct_edit_backend") is True and not d.get("scheduled_backend")
+
+
+# ----------------------------------------------------------------------------------------- C01 / C02 / C19 (behavioural steps)
+_BEHAVIOUR_KINDS = ("step_changes_behaviour", "program_behaves_differently", "folded_program_behaves_differently", "deleted_code_was_observable",
+                    "binding_structure_changed", "surface_name_lost", "client_behaves_differently", "preserved_name_lost")
+
+
+def _behaviour(rec, rules):
+    rule, before, after = _step(rec)
+    if rec.get("kind") not in _BEHAVIOUR_KINDS or rule not in rules:
+        return None
+    tb, ta = _parse(before or ""), _parse(after or "")
+    if tb is None or ta is None:
+        return None
+    return rule, before, after, tb, ta
+
+
+def _new_statements(tb, ta):
+    """Statements of the after-tree whose printed form does not occur in the before-tree."""
+    old = {ast.unparse(n) for n in ast.walk(tb) if isinstance(n, ast.stmt)}
+    return [n for n in ast.walk(ta) if isinstance(n, ast.stmt) and ast.unparse(n) not in old]
+
+
+_MERGE_RULES = {"fixes.replace_for_loops_with_set_list_comp", "fixes.replace_for_loops_with_dict_comp", "fixes.replace_dict_assign_with_dict_literal",
+                "fixes.replace_dict_update_with_dict_literal", "fixes.replace_dictcomp_assign_with_dict_literal", "fixes.replace_dictcomp_update_with_dict_literal",
+                "fixes.replace_collection_add_update_with_collection_literal", "fixes.replace_listcomp_append_with_plus", "fixes.replace_setcomp_add_with_union",
+                "fixes.replace_nested_loops_with_set_list_comp"}
+
+
+@classifier("merged-expression-reads-its-own-target")
+def _c02_self_reference(rec):
+    """Rules that merge `x = <init>` with following `x.append(e)` / `x[k] = v` / `x.update(..)` / a loop adding to x into one expression do not
+    check that e, k, v read x itself: `out = []; for i in s: out.append(len(out) + i)` -> `out = [len(out) + i for i in s]` (NameError / stale value)."""
+    b = _behaviour(rec, _MERGE_RULES)
+    if not b:
+        return False
+    _, _, _, tb, ta = b
+    for st in _new_statements(tb, ta):
+        if isinstance(st, ast.Assign) and len(st.targets) == 1 and isinstance(st.targets[0], ast.Name):
+            tgt = st.targets[0].id
+            if any(isinstance(n, ast.Name) and n.id == tgt and isinstance(n.ctx, ast.Load) for n in ast.walk(st.value)):
+                return True
+    return False
+
+
+@classifier("dict-update-keywords-dropped")
+def _c02_update_kwargs(rec):
+    """replace_dict_update_with_dict_literal folds `d.update(other, key=value)` into `{**d0, **other}`: the keyword arguments are dropped."""
+    b = _behaviour(rec, {"fixes.replace_dict_update_with_dict_literal", "fixes.replace_dictcomp_update_with_dict_literal"})
+    if not b:
+        return False
+    _, _, _, tb, ta = b
+    had = sum(1 for n in ast.walk(tb) if isinstance(n, ast.Call) and isinstance(n.func, ast.Attribute) and n.func.attr == "update" and n.keywords)
+    has = sum(1 for n in ast.walk(ta) if isinstance(n, ast.Call) and isinstance(n.func, ast.Attribute) and n.func.attr == "update" and n.keywords)
+    return has < had
+
+
+@classifier("duplicate-dict-keys-equal-across-types")
+def _c02_dup_keys(rec):
+    """remove_duplicate_dict_keys / remove_duplicate_set_elts keep the *last* of several equal keys: `{1: 'a', True: 'b'}` becomes `{True: 'b'}` (Python keeps the
+    first key object: `{1: 'b'}`) and `{1: 'a', 2: 'b', 1: 'c'}` becomes `{2: 'b', 1: 'c'}` (insertion order of key 1 lost)."""
+    b = _behaviour(rec, {"fixes.remove_duplicate_dict_keys", "fixes.remove_duplicate_set_elts"})
+    if not b:
+        return False
+    _, _, _, tb, ta = b
+    for n in ast.walk(tb):
+        if isinstance(n, ast.Dict):
+            keys = [k.value for k in n.keys if isinstance(k, ast.Constant)]
+        elif isinstance(n, ast.Set):
+            keys = [k.value for k in n.elts if isinstance(k, ast.Constant)]
+        else:
+            continue
+        try:
+            if len(set(keys)) < len(keys):
+                return True
+        except TypeError:
+            continue
+    return False
+
+
+@classifier("duplicate-import-removed-although-it-comes-first")
+def _c02_dup_imports(rec):
+    """fix_duplicate_imports removes an import that duplicates another one without regard to order or scope: an import inside a block is deleted in favour of a
+    module-level import that only runs later."""
+    b = _behaviour(rec, {"fixes.fix_duplicate_imports", "fixes._fix_duplicate_regular_imports", "fixes._fix_duplicate_from_imports", "fixes._breakout_stacked_imports"})
+    if not b:
+        return False
+    _, _, _, tb, ta = b
+    def nested(t):
+        top = set(map(id, t.body))
+        return sum(len(n.names) for n in ast.walk(t) if isinstance(n, (ast.Import, ast.ImportFrom)) and id(n) not in top)
+
+    nested_before, nested_after = nested(tb), nested(ta)
+    if nested_after < nested_before and (rec.get("detail") or {}).get("after_status") in ("exc:NameError", "exc:UnboundLocalError"):
+        return True
+    # ... or two imports that bind one name to different modules (`import collections as m` / `import textwrap as m`): the later one is dropped as a duplicate
+    bound = {}
+    for n in ast.walk(tb):
+        if isinstance(n, (ast.Import, ast.ImportFrom)):
+            for a in n.names:
+                bound.setdefault(a.asname or a.name.split(".")[0], set()).add((getattr(n, "module", None), a.name))
+    return any(len(v) > 1 for v in bound.values())
+
+
+@classifier("rule-relies-on-import-added-by-a-later-step")
+def _c02_later_import(rec):
+    """implicit_defaultdict (collections), replace_sorted_heapq (heapq), the numpy rules (np) ... emit `module.name(...)` and leave the import to the later
+    add_missing_imports step of the pipeline: applied alone, the result raises NameError. The monitor re-runs the result after add_missing_imports."""
+    d = rec.get("detail") or {}
+    return rec.get("kind") == "step_changes_behaviour" and d.get("after_status") == "exc:NameError" and d.get("agrees_after_add_missing_imports") is True
+
+
+@classifier("defaultdict-repr-and-membership")
+def _c02_defaultdict(rec):
+    """implicit_defaultdict turns `d = {}` + `if k not in d: d[k] = []` into collections.defaultdict(list): printing the mapping shows
+    `defaultdict(<class 'list'>, {...})` instead of `{...}` and later reads of missing keys insert them."""
+    b = _behaviour(rec, {"fixes.implicit_defaultdict"})
+    if not b:
+        return False
+    return "defaultdict" in (b[2] or "") and "defaultdict" not in (b[1] or "")
+
+
+@classifier("truthy-test-collapsed-to-its-value")
+def _c02_truthiness(rec):
+    """fix_if_return / fix_if_assign turn `if c: return True; return False` (and the assignment form) into `return c`: when c is not a bool (`a % 2`,
+    `[a] * a`, `a or None`, `x and y`) the function returns that value instead of True/False."""
+    b = _behaviour(rec, {"fixes.fix_if_return", "fixes.fix_if_assign"})
+    if not b:
+        return False
+    _, _, _, tb, ta = b
+    for n in ast.walk(tb):
+        if isinstance(n, ast.If):
+            t = n.test
+            if not (isinstance(t, ast.Compare) or (isinstance(t, ast.UnaryOp) and isinstance(t.op, ast.Not)) or (isinstance(t, ast.Constant) and isinstance(t.value, bool))
+                    or (isinstance(t, ast.BoolOp) and all(isinstance(v, ast.Compare) for v in t.values))):
+                return True
+    return False
+
+
+@classifier("singleton-equality-made-identity")
+def _c02_singleton(rec):
+    """singleton_eq_comparison rewrites `x == True/False/None` to `x is ...` without knowing the type of x: `0.0 != False` is False but `0.0 is not False` is True."""
+    b = _behaviour(rec, {"fixes.singleton_eq_comparison"})
+    if not b:
+        return False
+    _, _, _, tb, ta = b
+    return any(isinstance(n, ast.Compare) and any(isinstance(o, (ast.Eq, ast.NotEq)) for o in n.ops) and
+               any(isinstance(c, ast.Constant) and (c.value is None or isinstance(c.value, bool)) for c in [n.left] + n.comparators) for n in ast.walk(tb))
+
+
+@classifier("redundant-lambda-with-defaults-or-late-binding")
+def _c02_lambda(rec):
+    """simplify_redundant_lambda replaces `lambda x=2: f(x)` by `f` (the default is lost) and `lambda x: f(x)` by `f` although f may be rebound later."""
+    b = _behaviour(rec, {"fixes.simplify_redundant_lambda", "fixes._replace_lambda_with_function", "fixes._replace_lambda_with_literal"})
+    if not b:
+        return False
+    _, _, _, tb, ta = b
+    return any(isinstance(n, ast.Lambda) and (n.args.defaults or n.args.kw_defaults or n.args.kwonlyargs) for n in ast.walk(tb))
+
+
+@classifier("list-copy-removed-while-mutating")
+def _c02_redundant_iter(rec):
+    """remove_redundant_iter drops the `list(...)` in `for k in list(d.keys()):` although the loop body mutates d (RuntimeError: dictionary changed size)."""
+    b = _behaviour(rec, {"performance.remove_redundant_iter"})
+    if not b:
+        return False
+    _, _, _, tb, ta = b
+    return any(isinstance(n, ast.For) and isinstance(n.iter, ast.Call) and isinstance(n.iter.func, ast.Name) and n.iter.func.id in ("list", "tuple", "sorted")
+               for n in ast.walk(tb)) and (rec.get("detail") or {}).get("after_status") == "exc:RuntimeError"
+
+
+@classifier("logging-deinterpolation-uses-brace-style")
+def _c02_logging(rec):
+    """deinterpolate_logging_args turns `logging.error(f'value {x} done')` into `logging.error('value {} done', x)`: the standard library formats with %,
+    so the record cannot be formatted (the message is lost and a logging error goes to stderr)."""
+    b = _behaviour(rec, {"fixes.deinterpolate_logging_args"})
+    if not b:
+        return False
+    return True if re.search(r"logging\.\w+\(\s*['\"][^'\"]*\{[^'\"]*['\"]\s*,", b[2] or "") else False
+
+
+@classifier("hoisted-assignment-is-rebound-later-in-the-loop")
+def _c02_move_before_loop(rec):
+    """move_before_loop hoists `k = <invariant>` out of a loop although k is assigned again further down in the same loop body (or the loop may run zero
+    times and k was bound before): every iteration after the first sees the later value."""
+    b = _behaviour(rec, {"fixes.move_before_loop"})
+    if not b:
+        return False
+    _, _, _, tb, ta = b
+    for loop in ast.walk(tb):
+        if isinstance(loop, (ast.For, ast.While)):
+            stores = {}
+            for st in loop.body:
+                for n in ast.walk(st):
+                    if isinstance(n, ast.Name) and isinstance(n.ctx, ast.Store):
+                        stores[n.id] = stores.get(n.id, 0) + 1
+            if any(v >= 2 for v in stores.values()):
+                return True
+    return False
+
+
+@classifier("zip-truncation-lost")
+def _c02_zip(rec):
+    """unused_zip_args drops the unused iterable of `for _, v in zip(xs, ys)`: zip stops at the shorter input, the rewritten loop runs over all of ys."""
+    b = _behaviour(rec, {"fixes.unused_zip_args"})
+    return bool(b) and "zip(" in (b[1] or "")
+
+
+@classifier("class-attribute-moved-into-body-references-the-class")
+def _c02_unconventional_class(rec):
+    """fix_unconventional_class_definitions moves `K.b = K.a + 1` into the class body as `b = K.a + 1`, where K is not bound yet (NameError)."""
+    b = _behaviour(rec, {"object_oriented.fix_unconventional_class_definitions"})
+    if not b:
+        return False
+    _, _, _, tb, ta = b
+    for cls in ast.walk(ta):
+        if isinstance(cls, ast.ClassDef):
+            for st in cls.body:
+                if isinstance(st, ast.Assign) and any(isinstance(n, ast.Name) and n.id == cls.name for n in ast.walk(st.value)):
+                    return True
+    return False
+
+
+@classifier("static-method-extracted-but-still-accessed-through-the-class")
+def _c02_static_scope(rec):
+    """move_staticmethod_static_scope turns a static method into a module function `_name` and rewrites calls it recognises; accesses through an instance
+    (`obj.meth(3)`), a subclass or from outside the class body are left behind (AttributeError)."""
+    b = _behaviour(rec, {"object_oriented.move_staticmethod_static_scope"})
+    if not b:
+        return False
+    _, _, _, tb, ta = b
+    removed = {f.name for c in ast.walk(tb) if isinstance(c, ast.ClassDef) for f in c.body if isinstance(f, ast.FunctionDef)} - \
+              {f.name for c in ast.walk(ta) if isinstance(c, ast.ClassDef) for f in c.body if isinstance(f, ast.FunctionDef)}
+    return any(isinstance(n, ast.Attribute) and n.attr in removed for n in ast.walk(ta))
+
+
+@classifier("renamed-definition-still-referenced-by-old-attribute-name")
+def _c19_attr_rename(rec):
+    """align_variable_names_with_convention renames a method or class attribute at its definition (`def goVal5` -> `def go_val5`) but attribute accesses
+    (`obj.goVal5()`) are not renamed with it."""
+    b = _behaviour(rec, {"fixes.align_variable_names_with_convention", "fixes._fix_variable_names", "main.format_code"})
+    if not b:
+        return False
+    _, _, _, tb, ta = b
+    def defs(t):
+        return {f.name for c in ast.walk(t) if isinstance(c, ast.ClassDef) for f in c.body if isinstance(f, (ast.FunctionDef, ast.AsyncFunctionDef))} | \
+               {n.id for c in ast.walk(t) if isinstance(c, ast.ClassDef) for st in c.body if isinstance(st, ast.Assign) for n in st.targets if isinstance(n, ast.Name)}
+    gone = defs(tb) - defs(ta)
+    return any(isinstance(n, ast.Attribute) and n.attr in gone for n in ast.walk(ta))
+
+
+@classifier("loop-target-read-after-the-loop")
+def _c02_loop_target_leak(rec):
+    """The loop-to-comprehension rules do not check whether the loop variable is read after the loop: inside a comprehension it is no longer bound outside
+    (`for i in s: out.append(i)` ... `print(i)` -> NameError)."""
+    b = _behaviour(rec, {"fixes.replace_for_loops_with_set_list_comp", "fixes.replace_for_loops_with_dict_comp", "fixes.replace_nested_loops_with_set_list_comp",
+                         "fixes.replace_with_filter", "fixes.replace_setcomp_add_with_union", "fixes.replace_listcomp_append_with_plus"})
+    if not b:
+        return False
+    _, _, _, tb, ta = b
+    for holder in ast.walk(tb):
+        body = getattr(holder, "body", None)
+        if not isinstance(body, list):
+            continue
+        for i, st in enumerate(body):
+            if isinstance(st, ast.For):
+                targets = {n.id for n in ast.walk(st.target) if isinstance(n, ast.Name)}
+                later = {n.id for s2 in body[i + 1:] for n in ast.walk(s2) if isinstance(n, ast.Name) and isinstance(n.ctx, ast.Load)}
+                if targets & later:
+                    return True
+    return False
+
+
+@classifier("subscript-looping-index-still-used")
+def _c02_subscript_looping(rec):
+    """replace_subscript_looping turns `[(q, s[q]) for q in range(len(s))]` into `[(q, s_q) for s_q in s]` although the index q is still used in the element (NameError)."""
+    b = _behaviour(rec, {"performance.replace_subscript_looping", "performance._replace_subscript_looping_simple_cases", "performance._replace_subscript_looping_complex_cases"})
+    if not b:
+        return False
+    _, _, _, tb, ta = b
+    for comp in ast.walk(tb):
+        if isinstance(comp, (ast.ListComp, ast.SetComp, ast.GeneratorExp, ast.DictComp)):
+            for g in comp.generators:
+                if isinstance(g.target, ast.Name) and isinstance(g.iter, ast.Call) and isinstance(g.iter.func, ast.Name) and g.iter.func.id == "range":
+                    idx = g.target.id
+                    elts = [comp.key, comp.value] if isinstance(comp, ast.DictComp) else [comp.elt]
+                    bare = [n for e in elts + g.ifs for n in ast.walk(e) if isinstance(n, ast.Name) and n.id == idx]
+                    inside_subscript = [n for e in elts + g.ifs for sub in ast.walk(e) if isinstance(sub, ast.Subscript) for n in ast.walk(sub.slice) if isinstance(n, ast.Name) and n.id == idx]
+                    if len(bare) > len(inside_subscript):
+                        return True
+    return False
+
+
+@classifier("hoisted-imports-bind-one-name-to-different-modules")
+def _c02_hoisted_alias(rec):
+    """move_imports_to_toplevel hoists function-local imports to module level; two functions that bind the same local name to different modules
+    (`import shlex as alias_mod` / `import string as alias_mod`) end up sharing one global, the last one wins."""
+    b = _behaviour(rec, {"fixes.move_imports_to_toplevel"})
+    if not b:
+        return False
+    _, _, _, tb, ta = b
+    bound = {}
+    for n in ast.walk(tb):
+        if isinstance(n, (ast.Import, ast.ImportFrom)):
+            for a in n.names:
+                key = a.asname or a.name.split(".")[0]
+                origin = (getattr(n, "module", None), a.name)
+                bound.setdefault(key, set()).add(origin)
+    return any(len(v) > 1 for v in bound.values())
+
+
+@classifier("rebound-definition-renamed-inconsistently")
+def _c19_rebound_def(rec):
+    """A function or class name that is also the target of an assignment (`def dup2` ... `dup2 = dup1`) is renamed by two different conventions
+    (`_dup2` for the def, `DUP2` for the variable): definition and uses no longer agree (NameError)."""
+    b = _behaviour(rec, {"fixes.align_variable_names_with_convention", "fixes._fix_variable_names", "main.format_code"})
+    if not b:
+        return False
+    _, _, _, tb, ta = b
+    defs = {n.name for n in ast.walk(tb) if isinstance(n, (ast.FunctionDef, ast.AsyncFunctionDef, ast.ClassDef))}
+    stores = {n.id for n in ast.walk(tb) if isinstance(n, ast.Name) and isinstance(n.ctx, ast.Store)}
+    return bool(defs & stores)
+
+
+@classifier("dict-item-assignment-evaluation-order")
+def _c02_dict_eval_order(rec):
+    """replace_dict_assign_with_dict_literal folds `d[k()] = v()` into the display `{..., k(): v()}`: an item assignment evaluates the value first, a display the key first."""
+    b = _behaviour(rec, {"fixes.replace_dict_assign_with_dict_literal", "fixes.replace_dictcomp_assign_with_dict_literal"})
+    if not b:
+        return False
+    _, _, _, tb, ta = b
+    for n in ast.walk(tb):
+        if isinstance(n, ast.Assign) and len(n.targets) == 1 and isinstance(n.targets[0], ast.Subscript):
+            k_calls = any(isinstance(c, ast.Call) for c in ast.walk(n.targets[0].slice))
+            v_calls = any(isinstance(c, ast.Call) for c in ast.walk(n.value))
+            if k_calls and v_calls:
+                return True
+    return False
